@@ -104,14 +104,27 @@ def _rand_op(rng, focus=None):
     return kind, {}                     # singletons, firsts, concatperm, bcperm, concat0, concat1, zip, unflatten
 
 
+def _maxabs(x):
+    if isinstance(x, (list, tuple)):
+        return max([_maxabs(e) for e in x] or [0])
+    if isinstance(x, dict):
+        return max([_maxabs(e) for e in x.values()] or [0])
+    if isinstance(x, (int, float)) and not isinstance(x, bool) and x == x and abs(x) != float("inf"):
+        return abs(int(x))
+    return 0
+
+
 def gen_cases(seed, n, maxops, outdir, focus=None):
     rng = random.Random(seed)
     known = set(name for name, w in _WEIGHTS)
     focus = sorted(set(_KIND_OF.get(o, o) for o in (focus or ())) & known)
     records = bool(set(focus) & {"field", "withfield", "withfield_b", "zip", "bcperm", "concatperm"})
+    structural = bool(set(focus) & {"num", "flatten", "localindex"})
     cases = []
     for t in range(n):
-        if records and rng.random() < 0.5:
+        if structural and rng.random() < 0.15:
+            L, _n = trmod._rand_overlong_record_layout(rng)      # every field longer than the record array, lists of lists inside
+        elif records and rng.random() < 0.5:
             L, _n = trmod._rand_record_layout(rng, 2, True)      # records in the middle: lists, fixed-size lists, options above
         else:
             L, _n = trmod._rand_layout(rng, rng.randint(1, 3), allow_union=True)
@@ -349,6 +362,8 @@ def h_chain(case, pick, st, stats):
             a["_bool"] = 1 if isb else 0
         if op == "reduce" and a["reducer"] in ("sum", "prod") and trmod._magnitude(cur_list) >= 2 ** 30:
             break
+        if op in ("ufunc", "addmasked") and _maxabs(cur_list) >= 2 ** 29:
+            break                                    # 2*x+1 / x+x would leave TLC's 32-bit integers (the model's arithmetic, not the library's)
         ev["args"] = {k: v for k, v in a.items() if not k.startswith("_")}
         meta = {"act": op, "args": ev["args"], "from": A.layout._ljson(), "fromty": ty, "chain": list(hist), "py": 1}
         def impure():
